@@ -810,6 +810,14 @@ func realFetcherDeltaCases() []chainCase {
 			c.realFetcher, c.cancel = true, cancel
 			cases = append(cases, c)
 		}
+		// the same worlds met by a validator whose cache holds an entry that is no longer effective (the delta in it has expired),
+		// asked once, twice, three times: what a failed refresh leaves behind must not count as evidence the next time
+		for repeat := 0; repeat <= 2; repeat++ {
+			l := levelSpec{crlURLs: urlsN(crlURL, 0, 1), crlBeh: []string{kb}}
+			c := one(l, 2, fmt.Sprintf("real-fetcher-stale-cache-asked-%d-times", repeat+1))
+			c.realFetcher, c.realCache, c.plantStale, c.repeat = true, true, "expired-delta", repeat
+			cases = append(cases, c)
+		}
 	}
 	return cases
 }
